@@ -204,6 +204,6 @@ def collect(ck, tier):
         a = 'E4 side condition: ' + c
         if a not in ck.assumptions:
             ck.assumptions.append(a)
-    a = 'LLVM 14 -O2 as the normaliser of loop-free observers (E4)'
-    if a not in ck.assumptions:
-        ck.assumptions.append(a)
+    for a in ('LLVM 14 -O2 as the normaliser of loop-free observers (E4)', norm.TOOLCHAIN_NOTE):
+        if a not in ck.assumptions:
+            ck.assumptions.append(a)
